@@ -121,10 +121,10 @@ pub fn generate(seed: u64, tier: &str, out: &mut dyn std::io::Write) {
         }
     }
     // (b) natural failures
-    let nnat = if tier == "thorough" { 40 } else { 10 };
+    let nnat = if tier == "thorough" { 80 } else { 30 };
     for i in 0..nnat {
         let mut r = Rng::for_case(seed, 1011, i);
-        let scen = *r.pick(&["badname", "baddso", "traced", "none"]);
+        let scen = *r.pick(&["badname", "baddso", "traced", "none", "killed", "killed"]);
         let nblock = r.range(1, 4) as usize;
         let mut args = vec!["-t".to_string(), nblock.to_string()];
         let victim = r.range(0, nblock as u64) as usize;
@@ -151,7 +151,14 @@ pub fn generate(seed: u64, tier: &str, out: &mut dyn std::io::Write) {
             tracer = crate::c01::spawn_tracer(t.threads[victim].tid);
         }
         let mut dest = RecDest::new(vec![], 0);
-        let o = dump_case("C11", &format!("n{}-{}", seed, i), &t, &cfg, &mut dest, "");
+        // the target dies (and is reaped) while the dump is under way, after the streams that need it alive: every
+        // later best-effort step that reads the target's files or memory fails, each under its own step
+        let mut killed_at = 0usize;
+        if scen == "killed" {
+            killed_at = 6 + ((i * 7 + seed) % 11) as usize; // entries 6 … 16, every value over the cases of a run
+            dest.kill_at_dirent = Some((killed_at, t.pid, t.threads.iter().map(|x| x.tid).collect()));
+        }
+        let o = dump_case("C11", &format!("n{}-{}", seed, i), &t, &cfg, &mut dest, &format!("killed_at={}", killed_at));
         if let Some(mut c) = tracer {
             let _ = c.kill();
             let _ = c.wait();
